@@ -134,6 +134,12 @@ func runSeqGenerated(bin, prop string, seed uint64) *RunReport {
 	r := NewRun(bin, sc)
 	defer r.Close()
 	r.InitStore()
+	if (prop == "C15" || prop == "C08") && rng.Chance(2, 3) {
+		for _, st := range g.twoLevelPrelude() {
+			sc.Steps = append(sc.Steps, st)
+			r.ExecStep(st)
+		}
+	}
 	for i := 0; i < n; i++ {
 		st := g.Next(r.M)
 		sc.Steps = append(sc.Steps, st)
@@ -146,11 +152,15 @@ func runSeqGenerated(bin, prop string, seed uint64) *RunReport {
 // ExecStep executes one recorded step.
 func (r *Run) ExecStep(st Step) {
 	switch {
+	case st.Fork != "":
+		r.DoFork(st)
 	case st.File != nil:
 		r.DoFile(st.File)
+	case st.Disk != nil && st.Disk.Kind == "corrupt":
+		r.DoCorrupt(st.Disk)
 	case st.Disk != nil:
 		r.DoDisk(st.Disk)
-		if st.Disk.Kind == "tail_torn" {
+		if st.Disk.Kind == "tail_torn" || st.Disk.Kind == "legacy_task" {
 			r.resyncQuiet()
 		}
 	case st.Batch != nil:
@@ -189,6 +199,18 @@ func (r *Run) Report() *RunReport {
 	rep.Count["rand.forced"] += r.W.Rand.Forced
 	rep.Count["model.resyncs"] += r.Resyncs
 	rep.NonTrivial = r.Effects > 0
+	if r.Sc.Prop == "C18" {
+		// under layout/spelling variation the refinement oracle IS the property
+		for i := range rep.V {
+			switch rep.V[i].Oracle {
+			case "post-state", "rejected-valid", "failed-but-changed", "failed-but-wrote", "read-failed", "changed-by-init", "where", "reply-vs-read", "history-prefix", "accepted-invalid":
+				if rep.V[i].Prop != "C18" {
+					rep.V[i].Sig = "as-" + rep.V[i].Prop + ":" + rep.V[i].Sig
+					rep.V[i].Prop = "C18"
+				}
+			}
+		}
+	}
 	return rep
 }
 
@@ -225,6 +247,21 @@ func planFor(prop string) *PropPlan {
 			Run:    func(bin string, seed uint64) *RunReport { return runConcSample(bin, prop, seed, false) },
 			Replay: ReplayConc}}
 		p.Rule = "per sample: a seeded pre-state (sequential history) and one batch of 2-6 concurrent ergo processes; from the same snapshot the batch is executed under seeded random and sticky schedules and under EVERY single-preemption schedule of the designated processes (process A runs to its k-th .ergo system call, everybody else runs to completion, A resumes; k = 0..K); evaluations = batch executions; a sample is non-trivial when at least one batch ran; distinct = distinct trace digests of samples; distinct_interleavings counts distinct context-switch sequences (process role x call class)"
+	case "C12":
+		p.Modes = []Mode{seqMode(prop, 200, 6000), {Name: "corrupt", Quick: 120, Deep: 4000,
+			Run:    func(bin string, seed uint64) *RunReport { return runCorruptGenerated(bin, seed, false) },
+			Replay: ReplayScenario}}
+		p.Rule = "(a) seeded valid histories whose log is then damaged by one of 31 storage-fault kinds (bit flip, truncation anywhere, duplicated/swapped/dropped lines, conflict markers, junk, unknown event types, wrong field types, bad timestamps, duplicate creates, binary, NULs, BOM, CRLF, scalars, deep nesting, 64 KB and >10 MB lines, invalid UTF-8, semantic damage such as self/cyclic links) at a seeded position; against each damaged log 26 commands (all reads in JSON and human form, every mutation) run in the simulator: termination (watchdog), exit 0/1, no panic/signal, stderr explains, file:line named for non-JSON lines, reads byte-identical when repeated in a second process and free of mutating system calls, successful mutations only extend the event list; (b) seeded sequential histories with read purity, repeat-read determinism and history-prefix checks on valid logs; non-trivial = at least one command judged on a damaged log or one mutation in effect; distinct = distinct trace digests"
+	case "C18":
+		p.Modes = []Mode{{Name: "layout", Quick: 300, Deep: 9000,
+			Run:    func(bin string, seed uint64) *RunReport { return runLayoutGenerated(bin, seed) },
+			Replay: ReplayScenario}}
+		p.Rule = "seeded sequential histories in which every command draws a fresh start directory (depth 0-3, names with spaces) and --dir spelling (none, absolute, relative, the .ergo directory itself relative or absolute, trailing slash, .. segments); the store layout is drawn per run from plans-only, legacy events-only, both files (the unused one holds a decoy), lock-less, and shadowed by a decoy store in the enclosing directory; init (with and without a directory argument) and lock removal are inserted at seeded points; every step is judged by the sequential refinement oracle (a write through one spelling must be visible through all others; where must name the project's .ergo; init changes nothing); non-trivial = at least one mutation in effect; distinct = distinct trace digests"
+	case "C05":
+		p.Modes = []Mode{{Name: "fork", Quick: 200, Deep: 6000,
+			Run:    func(bin string, seed uint64) *RunReport { return runForkGenerated(bin, seed) },
+			Replay: ReplayScenario}}
+		p.Rule = "seeded sequential histories through every input mode (plan, results, prune, reopen, unclaim, epic moves, torn tails, legacy-format items) with 1-2 differential fork points each: observation before = after compact; second compact changes neither observation nor event count; then the same 3-8 generated commands plus a full claim drain run, with identical simulated clock and entropy, on the uncompacted and on the compacted store and must give byte-identical replies and equal observations; non-trivial = at least one mutation in effect; distinct = distinct trace digests"
 	case "C03", "C04":
 		p.Level = "fault_enumeration"
 		p.Modes = []Mode{{Name: "crash", Quick: 60, Deep: 1500,
